@@ -1949,7 +1949,11 @@ def dask_groupby_agg(
                     name=out_name,
                     block_index=icohort,
                     axis=axis,
-                    combine=partial(combine, agg=agg, reindex=new_reindex, keepdims=True),
+                    combine=(
+                        partial(combine, agg=agg, reindex=new_reindex, keepdims=True)
+                        if do_simple_combine
+                        else partial(combine, agg=agg, keepdims=True)
+                    ),
                     aggregate=partial(
                         aggregate, expected_groups=cohort_index, reindex=new_reindex, keepdims=True
                     ),
